@@ -291,12 +291,13 @@ func verifC43CIP(host, xff, trusted string) string {
 	if verifC43Trusted(ip, trusted) && xff != "" {
 		items := strings.Split(xff, ",")
 		for i := len(items) - 1; i >= 0; i-- {
-			x := net.ParseIP(strings.TrimSpace(items[i]))
+			raw := strings.TrimSpace(items[i])
+			x := net.ParseIP(raw)
 			if x == nil {
 				break
 			}
 			if i == 0 || !verifC43Trusted(x, trusted) {
-				return x.String()
+				return raw // gin hands on the forwarded address as written (not re-formatted)
 			}
 		}
 	}
@@ -590,7 +591,9 @@ var verifC43Hosts = []string{"10.0.0.1", "10.0.0.2", "2001:db8::1", "::ffff:10.0
 
 func verifC43Gen(r *verifutil.Rand, i int, thorough bool) []string {
 	cdn := r.Pick("", "", "cdnsecret", "cdnsecret", "s3 cr:et", "Bearer")
-	ops := []string{"reset " + verifutil.HexS(cdn)}
+	// half of the histories run behind a trusted reverse proxy
+	trusted := r.Pick("", "", "", "192.168.0.7", "192.168.0.7", "192.168.0.0/24", "192.168.0.0/24,2001:db8:ff::/64")
+	ops := []string{"reset " + verifutil.HexS(cdn) + " " + verifutil.HexS(trusted)}
 	good := "Basic " + "Z29vZDpnb29k" // good:good
 	bad := "Basic " + "YmFkOmJhZA=="  // bad:bad
 	cdnHdr := func() []string {
@@ -627,13 +630,45 @@ func verifC43Gen(r *verifutil.Rand, i int, thorough bool) []string {
 		}
 		return dirs[r.Intn(len(dirs))]
 	}
+	// a client = peer address + X-Forwarded-For. Behind the proxy most clients share the peer address
+	// and differ only in the forwarded address; elsewhere X-Forwarded-For is a spoofing attempt.
+	type client struct{ host, xff string }
+	proxies := []string{"192.168.0.7", "192.168.0.7", "192.168.0.7", "192.168.0.8", "2001:db8:ff::1"}
+	pickClient := func() client {
+		if trusted != "" && r.Chance(3, 4) {
+			c := client{host: proxies[r.Intn(len(proxies))]}
+			c.xff = verifC43Hosts[r.Intn(3)]
+			switch r.Intn(10) {
+			case 0: // client-supplied prefix in front of the address the proxy appended
+				c.xff = verifC43Hosts[r.Intn(len(verifC43Hosts))] + ", " + c.xff
+			case 1: // two proxies in a row
+				c.xff = c.xff + ", 192.168.0.8"
+			case 2:
+				c.xff = ""
+			}
+			return c
+		}
+		c := client{host: verifC43Hosts[r.Intn(len(verifC43Hosts))]}
+		if r.Chance(1, 4) {
+			c.xff = verifC43Hosts[r.Intn(len(verifC43Hosts))]
+		}
+		return c
+	}
+	// another client that reaches the server the same way (same proxy / also direct)
+	otherClient := func(c client) client {
+		if c.xff != "" && verifC43CIP(c.host, c.xff, trusted) != verifC43CIP(c.host, "", trusted) {
+			return client{host: c.host, xff: verifC43Hosts[r.Intn(3)]}
+		}
+		return pickClient()
+	}
 	nsess := 0
 	n := 6 + r.Intn(20)
 	if thorough {
 		n = 6 + r.Intn(60)
 	}
 	type sess struct {
-		dir, host string
+		dir string
+		cl  client
 	}
 	var made []sess // sessions the generator expects to exist (only used to aim probes)
 	isCDNHdr := func(hdrs []string) bool { return cdn != "" && len(hdrs) > 0 && hdrs[0] == "Bearer "+cdn }
@@ -644,7 +679,7 @@ func verifC43Gen(r *verifutil.Rand, i int, thorough bool) []string {
 		}
 		switch {
 		case x < 5: // session creation attempts
-			d, h := pickDir(), verifC43Hosts[r.Intn(len(verifC43Hosts))]
+			d, cl := pickDir(), pickClient()
 			cc := r.Pick("q", "q", "q", "c", "c", "c", "n")
 			var hdrs []string
 			switch r.Intn(14) {
@@ -662,21 +697,21 @@ func verifC43Gen(r *verifutil.Rand, i int, thorough bool) []string {
 			default:
 				hdrs = []string{good}
 			}
-			op := verifC43CreateOp(d, h, cc, hdrs)
-			ops = append(ops, op)
-			if strings.HasSuffix(op, " 1") && cc != "n" && !isCDNHdr(hdrs) && verifC43IsKnown(path.Dir(d+"/x")) {
-				made = append(made, sess{path.Dir(d + "/x"), h})
+			ops = append(ops, verifC43CreateOp(trusted, d, cl.host, cc, hdrs, cl.xff))
+			if verifC43AuthCol(hdrs) == "1" && cc != "n" && !isCDNHdr(hdrs) && verifC43IsKnown(path.Dir(d+"/x")) {
+				made = append(made, sess{path.Dir(d + "/x"), cl})
 				nsess++
 			}
 		case x < 18: // probes
 			kind := r.Pick("m", "m", "s", "s", "4", "p", "v")
-			var d, h string
+			var d string
+			var cl client
 			k := 0
 			if len(made) > 0 && r.Chance(9, 10) {
 				k = r.Intn(nsess)
-				d, h = made[k].dir, made[k].host
+				d, cl = made[k].dir, made[k].cl
 			} else {
-				d, h = pickDir(), verifC43Hosts[r.Intn(len(verifC43Hosts))]
+				d, cl = pickDir(), pickClient()
 			}
 			des := func() string {
 				form := r.Pick("s", "s", "s", "s", "s", "U", "u", "b", "h", "t", "x", "f")
@@ -704,20 +739,19 @@ func verifC43Gen(r *verifutil.Rand, i int, thorough bool) []string {
 			default:
 				cookie, query = r.Pick("-", "g", "e", "r"), r.Pick("-", "g", "e", "r", "z")
 			}
-			// perturb: wrong IP / wrong path
-			switch r.Intn(8) {
-			case 0:
-				h = verifC43Hosts[r.Intn(len(verifC43Hosts))]
-			case 1:
-				d = pickDir()
+			// perturb: another client / wrong path / spoofed or dropped X-Forwarded-For
+			switch r.Intn(10) {
+			case 0, 1:
+				cl = otherClient(cl)
 			case 2:
+				d = pickDir()
+			case 3:
 				d = dirs[r.Intn(len(dirs))]
-			}
-			xff := ""
-			if r.Chance(1, 6) {
-				xff = verifC43Hosts[r.Intn(len(verifC43Hosts))]
-				if len(made) > 0 && r.Bool() {
-					xff = made[r.Intn(len(made))].host
+			case 4: // same forwarded address, but sent directly / through a peer that is not trusted
+				cl.host = r.Pick("10.0.0.10", "192.168.1.7", "192.168.0.8")
+			case 5: // a direct client claims the session's address in X-Forwarded-For
+				if len(made) > 0 {
+					cl = client{host: verifC43Hosts[r.Intn(len(verifC43Hosts))], xff: verifC43CIP(made[k].cl.host, made[k].cl.xff, trusted)}
 				}
 			}
 			var hdrs []string
@@ -729,7 +763,7 @@ func verifC43Gen(r *verifutil.Rand, i int, thorough bool) []string {
 			case 2:
 				hdrs = []string{good}
 			}
-			ops = append(ops, verifC43ProbeOp(kind, d, h, cookie, query, hdrs, xff))
+			ops = append(ops, verifC43ProbeOp(trusted, kind, d, cl.host, cookie, query, hdrs, cl.xff))
 		case x < 19:
 			ops = append(ops, fmt.Sprintf("kick %d", r.Intn(nsess+1)))
 		default:
